@@ -776,7 +776,7 @@ func checkGetters(p *load.Program, r *Roles, col *Col, res *UnitResult, run func
 		fn := p.DeclaredMethod("BaseNode", g)
 		lf := leaves[g]
 		if fn == nil || lf.key == "" {
-			col.Unproven("C19.R5", "BaseNode."+g, p.Position(0), "getter not found, or it does not return one field of the node on its paths", nil)
+			col.Unproven("C19.R5"+map[string]string{"GetBatchConcurrency": ",C08.R6", "GetMaxRetries": ",C02.R1", "GetWait": ",C20.R1", "GetBatchErrorHandling": ",C07.R6,C09.R5"}[g], "BaseNode."+g+":identity", p.Position(0), "getter not found, or it does not return one field of the node unchanged on its paths", nil)
 			continue
 		}
 		e := run(fn, nil, Mode{}, &unlockMon{col: col, label: "BaseNode." + g})
